@@ -410,7 +410,7 @@ def EvOK (cfg : WCfg) (w : World) : Ev → Prop
   | .snapshot _ cmds _ => ∀ c ∈ cmds, TxnSafe c
   | .book src bk => bk.Valid ∧ BookClean cfg w src bk
   | .toolRaw _ _ _ => False
-  | .restart _ _ => False      -- restarts are covered by the global theorem (`GInv`, Proofs/BisyncGlobal.lean)
+  | .restart _ _ _ => False      -- restarts are covered by the global theorem (`GInv`, Proofs/BisyncGlobal.lean)
 
 def GoodRun (cfg : WCfg) : World → List Ev → Prop
   | _, [] => True
@@ -789,7 +789,7 @@ theorem step_preserves (cfg : WCfg) (hf : FOK cfg.parser.filter) (w : World) (hi
   | snapshot src cmds arg => exact step_snapshot cfg hf w hinv src cmds arg hok
   | book src bk => exact step_book cfg hf w hinv src bk hok.1 hok.2
   | toolRaw _ _ _ => exact hok.elim
-  | restart _ _ => exact hok.elim
+  | restart _ _ _ => exact hok.elim
 
 theorem run_preserves (cfg : WCfg) (hf : FOK cfg.parser.filter) (evs : List Ev) (w : World) (hinv : WInv cfg w)
     (hgood : GoodRun cfg w evs) : WInv cfg (runWorld cfg w evs) := by
@@ -906,7 +906,7 @@ theorem quiesce (cfg : WCfg) (hf : FOK cfg.parser.filter) (evs : List Ev) (w : W
     | snapshot _ _ _ => exact absurd he (by simp [Ev.isLink])
     | book _ _ => exact absurd he (by simp [Ev.isLink])
     | toolRaw _ _ _ => exact absurd he (by simp [Ev.isLink])
-    | restart _ _ => exact absurd he (by simp [Ev.isLink])
+    | restart _ _ _ => exact absurd he (by simp [Ev.isLink])
 
 /-- only client blocks are ever committed -/
 theorem dueTags_foreign (s : List TBlock) (n : Nat) : ∀ t ∈ dueTags s n, isForeign t = true := by
